@@ -23,11 +23,14 @@ NEL = FULL.replace("café Nº1", "ca\x85fé\xa0Nº1").replace("free téxt", "fre
 # decimal commas in the data (default read policy) and a comma-delimited file: reads of one must not change reads of the other
 COMMADEC = NOWELL.replace("1.0 10\n1.5 20\n", "1,0 10,5\n1,5 20,25\n")
 COMMADLM = NOWELL.replace("WRAP. NO : w\n", "WRAP. NO : w\nDLM. COMMA : d\n").replace("1.0 10\n1.5 20\n", "1.0,10\n1.5,20\n")
-CONTENTS = {"full": FULL, "nowell": NOWELL, "cyr": CYR, "nel": NEL, "commadec": COMMADEC, "commadlm": COMMADLM}
+# section titles that do not start in column 0 (odd and even numbers of leading blanks)
+INDENT = FULL.replace("~Params", " ~Params").replace("~Other", "   ~Other").replace("~Curves", "  ~Curves")
+CONTENTS = {"full": FULL, "nowell": NOWELL, "cyr": CYR, "nel": NEL, "commadec": COMMADEC, "commadlm": COMMADLM, "indent": INDENT}
 TOKENS = {"full": ["café Nº1", "wéll name", "µ-field", "° sign", "µR/h", "gamma é", "°C", "free téxt"],
           "nowell": ["depth é"],
           "cyr": ["скважина", "м", "µR/h"],
-          "nel": ["ca\x85fé\xa0Nº1", "free\x85téxt", "µ-field"], "commadec": ["depth é"], "commadlm": ["depth é"]}
+          "nel": ["ca\x85fé\xa0Nº1", "free\x85téxt", "µ-field"], "commadec": ["depth é"], "commadlm": ["depth é"],
+          "indent": ["café Nº1", "µR/h", "°C"]}
 OPTS = {"default": {}, "preserve": {"mnemonic_case": "preserve"}, "normal": {"engine": "normal"},
         "lower_ihe": {"mnemonic_case": "lower", "ignore_header_errors": True}}
 NL = {"LF": "\n", "CRLF": "\r\n", "CR": "\r"}
